@@ -32,12 +32,18 @@ Round 3 (lib/c10_refs.py: TYPE REFERENCES as a swept dimension - one module per 
      hops + member tags) for every table; the theorems C10_alias_* say what that gives for chains of any length;
  (i) thorough: asn1c rebuilt with --coverage in a scratch copy, every module run once; evidence lists which module first
      reaches each asn1c_lang_C_type_* emitter / each case arm of emit_type_DEF, emit_member_table ..., and the
-     never-executed lines of libasn1compiler/asn1c_C.c."""
+     never-executed lines of libasn1compiler/asn1c_C.c.
+Round 4 (lib/c10_partial.py: exactly ONE emission unit fails in the EMITTER - first / middle / last among top-level types, among the
+specializations of a parameterized type, as a component; lib/c10_strlit.py: string literals with octets 0x01..0xff; coq/Fix/CompileFold.v):
+ (j) every job: a `FATAL:` line or an `#error` directive in a generated file never comes with exit status 0;
+ (k) the emitted permitted-alphabet checker of every FROM site admits exactly the octets of the literal (c10_util.alphabet_oracle);
+ (l) exit status and number of `Cannot compile` diagnostics = CompileFold.exit_status / top_fatals of the extracted model on the
+     emission-unit tree of the module (theorems C10_exit_zero_iff_all_units_ok, C10_exit_order_independent, ...)."""
 import sys, os, re, json, time
 sys.path.insert(0, os.path.join(os.path.dirname(os.path.abspath(__file__)), "..", "lib"))
 from vlib import *
 from c10_util import *
-import c10_alias, c10_refs
+import c10_alias, c10_refs, c10_partial
 
 CLAUSES = {1: "translator saw a null table with a non-zero count", 2: "member type index out of range", 3: "tags / all_tags relation",
            4: "PER record of the type", 5: "OER record of the type", 6: "member records (PER/OER/tag_mode/flags)",
@@ -188,6 +194,40 @@ def of_unsigned_through_param(text):
     return False
 
 
+def objset_shared_by_two_specializations(text):
+    """one parameterized type with an object-set (governed, upper-case) parameter instantiated with the same object set in two
+    different actual parameter lists"""
+    t = strip_comments(text)
+    for name, params in re.findall(r"(?m)^\s*([A-Z][\w-]*)\s*\{([^{}]*)\}\s*::=", t):
+        if not re.search(r"[A-Z][\w-]*\s*:\s*[A-Z]", params):
+            continue
+        lists = set(re.findall(r"\b%s\s*\{((?:[^{}]|\{[^{}]*\})*)\}(?!\s*::=)" % re.escape(name), t))
+        sets = [(re.findall(r"\{\s*([A-Z][\w-]*)\s*\}", l), l) for l in lists]
+        for i, (a, la) in enumerate(sets):
+            for b, lb in sets[i + 1:]:
+                if la != lb and set(a) & set(b):
+                    return True
+    return False
+
+
+def open_type_in_nested_struct(text):
+    """a component relation constraint `{@...}` written inside a SEQUENCE / SET / CHOICE that is itself inside another one"""
+    t = strip_comments(text)
+    stack = []
+    for m in re.finditer(r"\b(SEQUENCE|SET|CHOICE)\s*\{|\{\s*@|\{|\}", t):
+        tok = m.group(0)
+        if tok == "}":
+            if stack:
+                stack.pop()
+        elif m.group(1):
+            stack.append("struct")
+        else:
+            if "@" in tok and stack.count("struct") >= 2:
+                return True
+            stack.append("other")
+    return False
+
+
 def real_reference_with_range(text):
     """a reference to a type whose chain ends in REAL, used with a value constraint (not WITH COMPONENTS)"""
     t = strip_comments(text)
@@ -210,6 +250,9 @@ def match_finding(stage, job):
     if stage == "signal":
         if "asn1p_parse: Assertion `!TQ_FIRST" in err and has_of_with_sized_of_element(text):
             return "C10-of-of-size-assert"
+        if job["rc"] == -6 and "Cannot compile" in err and "asn1c_lang_C_type_SEQUENCE: Assertion `arg->target->target == OT_TYPE_DECLS" in err \
+           and open_type_in_nested_struct(text):
+            return "C10-component-emitter-failure-assert"
         if job["rc"] == -11 and left_recursive_choice(text):
             return "C11-leftrec-crash"
     if stage in ("build", "cxx"):
@@ -227,6 +270,8 @@ def match_finding(stage, job):
         if re.search(r"unknown type name .\w+_\d+P\d+_t|asn_DEF_\w+_\d+P\d+. undeclared|\w+_\d+P\d+. has not been declared|does not name a type", blog):
             if param_type_in_two_modules(text):
                 return "C10-param-type-in-two-modules"
+        if re.search(r"redefinition of .asn_(VAL|IOS)_", blog) and objset_shared_by_two_specializations(text):
+            return "C10-param-objset-table-per-specialization"
         if re.search(r"#error Cannot compile", blog) and re.search(r"\bINSTANCE\s+OF\b", strip_comments(text)):
             return "C10-instance-of-member-error-directive"
         if re.search(r"\b[\w-]+\.h: No such file", blog) and valueset_used_as_type(text):
@@ -236,6 +281,20 @@ def match_finding(stage, job):
             return "C10-real-reference-constraint-value-type"
         if re.search(r"unknown type name .asn_(Native)?REAL_specifics_t|.asn_(Native)?REAL_specifics_t. does not name a type", blog) and "-fwide-types" in opts and REAL_REF_NARROWED.search(strip_comments(text)):
             return "C10-real-reference-narrowed-to-float"
+    if stage == "fatal":
+        fat = " ".join(job.get("fatal_lines", []) + job.get("error_directives", []))
+        t = strip_comments(text)
+        if all(re.match(r"FATAL: Inappropriate value \{", l) for l in job.get("fatal_lines", [])) and not job.get("error_directives") \
+           and re.search(r"&[a-z][\w-]*\s+(OBJECT\s+IDENTIFIER|RELATIVE-OID)", t):
+            return "C18-oid-identifier"
+        # the two component findings: EVERY diagnostic names a component (identifiers of components start with a lower-case letter,
+        # top-level types and specializations with an upper-case one), and the module has such a component
+        comp_only = all(re.match(r'FATAL: Cannot compile "[a-z]', l) for l in job.get("fatal_lines", [])) and \
+            all(re.search(r'#\s*error Cannot compile "[a-z]', l) for l in job.get("error_directives", []))
+        if comp_only and re.search(r"[a-z][\w-]*\s+(?:\[[^\]]*\]\s*)?INSTANCE\s+OF\b", t):
+            return "C10-instance-of-member-error-directive"
+        if comp_only and re.search(r"[a-z][\w-]*\s+(?:\[[^\]]*\]\s*)?(EXTERNAL|EMBEDDED\s+PDV)\b", t):
+            return "C10-unsupported-useful-types-no-skeleton"
     if stage == "files-model":
         # model and C disagree on the per-type file names ONLY at parameterized types defined in two modules
         # (the templates are not run through asn1f_check_duplicate: no module prefix, both saved to one file)
@@ -377,6 +436,40 @@ def region_ties(run, res, known_ids):
                                                         "what": "asn1c exited 0 but the set of files it wrote is not self-contained", "problems": j["fileset"]})
 
 
+# ---------------------------------------------------------------- round 4: the status folding of the compile loop
+
+def fold_ties(run, res, known_ids):
+    """model (Fix/CompileFold.v: exit_status, top_fatals) vs asn1c (exit status, number of `FATAL: Cannot compile` lines) on the
+    modules of lib/c10_partial.py, and the Spec evaluated directly: a failing unit / specialization => non-zero exit"""
+    model = model_build()
+    js = [j for j in res if j["mod"].get("partial") and 0 <= j.get("rc", -1) < 124]
+    js = [j for j in js if not (j.get("name_clash") and "-fcompound-names" not in j["opts"])]     # another refusal path (c_name_clash), not this loop
+    if not js:
+        return
+    lines = ["c10_fold " + c10_partial.fold_tokens(j["mod"], j["opts"]) for j in js]
+    rc, out, err = run_lines(model, lines)
+    if rc != 0 or len(out) != len(lines):
+        raise RuntimeError("model driver failed (c10_fold): rc=%s lines=%d/%d %s" % (rc, len(out), len(lines), err))
+    for j, line, ans in zip(js, lines, out):
+        m, opts = j["mod"], j["opts"]
+        case = "%s %s" % (m["name"], " ".join(opts))
+        replay = {"module": m["text"], "module_name": m["name"], "options": list(opts), "refusal": m.get("refusal"), "position": m.get("position"),
+                  "replay_cmd": "asn1c -S <skeletons> -pdu=all %s %s.asn1" % (" ".join(opts), m["name"]), "asn1c_rc": j["rc"],
+                  "asn1c_stderr": "\n".join(l for l in j.get("stderr", "").split("\n") if l.startswith("FATAL"))[-800:], "model_cmd": line}
+        run.count("tie:compile-fold")
+        run.count("fold:%s:%s" % (m.get("position"), "fails" if c10_partial.any_fails(m, opts, components=False) else "compiles"))
+        got = "OK exit=%d fatals=%d" % (j["rc"], j.get("cannot_compile", 0))
+        spec_fail = c10_partial.any_fails(m, opts, components=False)
+        if ans != got:
+            run.violation("correspondence:CompileFold.exit_status", dict(replay, what="exit status / number of `Cannot compile` diagnostics of asn1c differ from the model of the compile loop",
+                                                                         model=ans, c=got), no_input=not (spec_fail and j["rc"] == 0))
+        if spec_fail and j["rc"] == 0:
+            run.violation("partial:failed-unit-but-exit-0", dict(replay, what="a unit (top-level type or specialization) the emitter refuses is part of the module, asn1c exits 0"))
+        if not c10_partial.any_fails(m, opts) and j["rc"] != 0:
+            run.count("partial:refused-although-no-known-refusal")
+            run.violation("asn1c:repaired-construct-refused", dict(replay, what="every unit of the module compiles under these options (the handled neighbours of the emitter's refusals), asn1c refuses it"))
+
+
 # ---------------------------------------------------------------- main
 
 def main(tier):
@@ -386,6 +479,7 @@ def main(tier):
     fpath = os.path.join(VERIF, "findings.d", "C10.json")
     run.findings = [f for f in (json.load(open(fpath)) if os.path.exists(fpath) else []) if f.get("status") == "open"]
     run.findings += [f for f in load_findings("C11") if f["id"] == "C11-leftrec-crash"]
+    run.findings += [f for f in load_findings("C18") if f["id"] == "C18-oid-identifier" and f.get("status") == "open"]
     known_ids = {f["id"] for f in run.findings}
     rng = Rng(run.seed)
     scr = scratch()
@@ -401,6 +495,8 @@ def main(tier):
         run.violation("build:asn1c", {"what": str(e)[-2500:]}, no_input=True)
         return run.finish("translation_validation", (nthm, ndis))
     mods = corpus(rng, tier)
+    if os.environ.get("C10_ONLY"):          # development aid: C10_ONLY=partial,strlit runs the modules of these origins only
+        mods = [m_ for m_ in mods if m_["origin"].split(":")[0] in os.environ["C10_ONLY"].split(",")]
     # quick: the 4 option sets of round 1 + "-fwide-types" alone (wide types WITH constraint code), which only the numeric
     # kinds of the reference sweep get: set 2 carries -fno-constraints, so the checker emitted for a constrained INTEGER / REAL
     # reference under wide types was built in the thorough tier only (finding C10-real-reference-constraint-value-type)
@@ -408,6 +504,12 @@ def main(tier):
     jobs = []
     root = os.path.join(scr, "jobs")
     for mi, m in enumerate(mods):
+        if tier == "quick" and m.get("optsets"):
+            # round 4 (partial emitter failures, string-literal content): the generator names the option sets of each module
+            for k, opts in enumerate(m["optsets"]):
+                jobs.append({"mod": m, "opts": tuple(opts), "oi": 100 + k, "dir": job_dir(root, m, 100 + k), "asn1c": asn1c, "skel": skel,
+                             "only_asn1c": False, "cleanup": True})
+            continue
         for oi, opts in enumerate(optsets):
             # thorough: asn1c runs under all 128 subsets for every module; the build + translator part runs for 16 of them
             # per module, rotating so that all subsets are built across the corpus
@@ -420,8 +522,10 @@ def main(tier):
                 continue        # parameterized modules mostly need -fcompound-names (set 1); a second set in rotation
             if tier == "quick" and m["origin"] == "grammar-refused" and oi != mi % 4:
                 continue        # refusals happen in the parser / fixer: one option set each
+            if tier != "quick" and m["origin"] in ("partial", "strlit") and ((oi - 16 * mi) % 128) >= 16:
+                continue        # thorough, round-4 modules (many; their refusals do not depend on most flags): 16 rotating subsets, 6 of them built
             # thorough: build + translator under 16 rotating subsets per module (6 for the region modules of round 2, which are many)
-            full = tier == "quick" or ((oi - 16 * mi) % 128) < (6 if m["origin"] in ("param", "multi", "grammar", "grammar-refused", "refs") else 16)
+            full = tier == "quick" or ((oi - 16 * mi) % 128) < (6 if m["origin"] in ("param", "multi", "grammar", "grammar-refused", "refs", "partial", "strlit") else 16)
             jobs.append({"mod": m, "opts": opts, "oi": oi, "dir": job_dir(root, m, oi), "asn1c": asn1c, "skel": skel,
                          "only_asn1c": not full, "cleanup": True})
     print("C10: %d jobs" % len(jobs), file=sys.stderr)
@@ -464,6 +568,24 @@ def main(tier):
                     run.violation("asn1c:repaired-construct-refused", dict(replay, what="asn1c refuses a construct that the repaired tree compiles (%s)" % m["accept"]))
             continue
         run.count("%s:accepted" % okey)
+        # (j) round 4: what asn1c itself calls fatal, or leaves as an #error directive in a generated file, with exit status 0
+        if j.get("fatal_lines") or j.get("error_directives"):
+            run.count("oracle:fatal-or-error-directive-with-exit-0")
+            kinds = (["fatal-diagnostic"] if j.get("fatal_lines") else []) + (["error-directive-in-output"] if j.get("error_directives") else [])
+            report("fatal", "asn1c:%s-but-exit-0" % "+".join(kinds),
+                   "asn1c printed a FATAL diagnostic / wrote an #error directive into a generated file, and exited with status 0",
+                   {"fatal_lines": j.get("fatal_lines"), "error_directives": j.get("error_directives")})
+        # (k) round 4: the emitted permitted-alphabet checkers against the octets of the literals
+        for cfile, fn, mode, prob in j.get("alpha", []):
+            run.count("alphabet-site:%s" % mode)
+            if prob:
+                fid = match_finding("alphabet", dict(j, alpha_prob=prob))
+                if fid and fid in known_ids:
+                    run.known_finding(fid, case)
+                    run.count("known:" + fid)
+                else:
+                    run.violation("alphabet:checker-differs-from-literal", dict(replay, what="asn1c exited 0; the permitted-alphabet checker it emitted does not admit exactly the octets of the FROM literal",
+                                                                                c_file=cfile, function=fn, mode=mode, problem=prob, latin1=True))
         if j.get("only_asn1c"):
             continue
         # (b) emitted sources compile and link the way converter-example.mk does it; headers are valid C++
@@ -531,6 +653,11 @@ def main(tier):
     # ---- round 2: the file set and the specialization indices, model vs C and the oracle on the C output alone
     try:
         region_ties(run, res, known_ids)
+    except RuntimeError as e:
+        run.violation("model:modeldrv", {"what": str(e)[-1500:]}, no_input=True)
+
+    try:
+        fold_ties(run, res, known_ids)
     except RuntimeError as e:
         run.violation("model:modeldrv", {"what": str(e)[-1500:]}, no_input=True)
 
